@@ -11,7 +11,39 @@ pub fn count(tier: Tier) -> u64 {
     tier.pick(240, 1200)
 }
 
+/// A store sorted ON a reference: key = (position of the parent, rank among siblings). The sort key depends on
+/// the positions the sort produces, so the writer has to iterate until a fixed point; the model cannot predict
+/// "the" order, the oracle is self-consistency (see `run_sort_on_ref`).
+fn gen_sort_on_ref(seed: u64, k: u64) -> Value {
+    let mut rng = Rng::keyed(seed, "C15-tree", k);
+    let b = *rng.pick(&[2u8, 3, 4]);
+    let n = match b {
+        2 => *rng.pick(&[15usize, 31, 63, 127]),
+        3 => *rng.pick(&[13usize, 40, 121, 364]),
+        _ => *rng.pick(&[21usize, 85, 341]),
+    };
+    let store = StoreDef {
+        n,
+        common: vec![
+            PDef { name: "id".into(), kind: PKind::UInt, col: Col::Seq },
+            PDef { name: "parent".into(), kind: PKind::RefTo, col: Col::Tree(b) },
+            PDef { name: "rank".into(), kind: PKind::UInt, col: Col::Tree(b) },
+        ],
+        variants: vec![],
+        sort: Some(vec!["parent".into(), "rank".into()]),
+        unique_keys: false,
+    };
+    let case = DirCase { seed: rng.next(), vstores: vec![], stores: vec![store], indexes: vec![IndexDef { name: "all".into(), store: 0, offset: 0, count: n as u32 }] };
+    let mut v = case.to_json();
+    v["via"] = json!("mem");
+    v["mode"] = json!("sort-on-ref");
+    v
+}
+
 pub fn gen(seed: u64, tier: Tier, k: u64) -> Value {
+    if k % 12 == 9 {
+        return gen_sort_on_ref(seed, k);
+    }
     let mut rng = Rng::keyed(seed, "C15", k);
     // sizes: reference-column width boundaries and sizes where rayon really splits the work
     let n: usize = if k < 8 {
@@ -74,7 +106,85 @@ pub fn gen(seed: u64, tier: Tier, k: u64) -> Value {
     v
 }
 
+fn run_sort_on_ref(desc: &Value) -> CaseOut {
+    use jubako::reader::Range as _;
+    let mut out = CaseOut::new();
+    let case = DirCase::from_json(desc);
+    observe(&case, &mut out);
+    out.obs.inc("cases.sort_on_reference");
+    let n = case.stores[0].n;
+    let r = crate::util::catch(|| -> Result<(), String> {
+        let (inst, bytes) = create_mem(&case).map_err(|e| format!("creation: {e}"))?;
+        let pack = crate::c02::open_dir_mem(bytes)?;
+        let index = pack.get_index_from_name("all").map_err(|e| e.to_string())?.ok_or("index missing")?;
+        let es = pack.create_entry_storage();
+        let vs = pack.create_value_storage();
+        let builder = jubako::reader::builder::AnyBuilder::new(index.get_store(&es).map_err(|e| e.to_string())?, vs.as_ref()).map_err(|e| e.to_string())?;
+        let names = vec!["id".to_string(), "parent".to_string(), "rank".to_string()];
+        let mut rows: Vec<(u64, u64, u64)> = vec![];
+        for i in 0..n as u32 {
+            let e = index.get_entry(&builder, jubako::EntryIdx::from(i)).map_err(|e| e.to_string())?.ok_or("entry missing")?;
+            let re = read_entry(&e, &[], &names)?;
+            let g = |k: &str| match re.vals.get(k) {
+                Some(Val::U(v)) => Ok(*v),
+                other => Err(format!("property {k} = {other:?}")),
+            };
+            rows.push((g("id")?, g("parent")?, g("rank")?));
+        }
+        // every id exactly once
+        let mut pos_of = vec![usize::MAX; n];
+        for (p, (id, _, _)) in rows.iter().enumerate() {
+            if *id as usize >= n || pos_of[*id as usize] != usize::MAX {
+                return Err(format!("VIOLATION id {id} read twice or out of range"));
+            }
+            pos_of[*id as usize] = p;
+        }
+        let tree = tree_dfs(n, match &case.stores[0].common[1].col {
+            Col::Tree(b) => *b as usize,
+            _ => 2,
+        });
+        for (p, (id, parent, rank)) in rows.iter().enumerate() {
+            let (pe, r) = tree[*id as usize];
+            if *rank != r as u64 {
+                return Err(format!("VIOLATION entry id {id}: rank {rank} read, {r} written"));
+            }
+            if *parent != pos_of[pe] as u64 {
+                return Err(format!("VIOLATION entry id {id} (read at {p}) stores reference {parent} but the referenced entry (id {pe}) is read back at position {}", pos_of[pe]));
+            }
+            let h = inst.handles[0][*id as usize].get().into_u32() as usize;
+            if h != p {
+                return Err(format!("VIOLATION handle of entry id {id} reports position {h}, the entry is read back at {p}"));
+            }
+        }
+        for w in rows.windows(2) {
+            if (w[0].1, w[0].2) > (w[1].1, w[1].2) {
+                return Err(format!("VIOLATION store sorted on (parent, rank) holds {:?} before {:?}", (w[0].1, w[0].2), (w[1].1, w[1].2)));
+            }
+        }
+        Ok(())
+    });
+    match r {
+        Ok(Ok(())) => {
+            out.obs.add("references_compared", n as u64);
+            out.obs.add("handles_compared", n as u64);
+        }
+        Ok(Err(e)) => {
+            if let Some(w) = e.strip_prefix("VIOLATION ") {
+                out.violate(json!({"kind": "sort-on-reference", "profile": profile()}), format!("C15: {w}"), json!({}));
+            } else {
+                out.violate(json!({"kind": "sort-on-reference-error", "message": crate::util::normalize_msg(&e), "profile": profile()}), format!("C15: store sorted on a reference: {e}"), json!({}));
+            }
+        }
+        Err(p) => out.violate_panic("C15", "sort-on-reference", "tree", &p),
+    }
+    out.nontrivial = true;
+    out
+}
+
 pub fn run(desc: &Value, ctx: &Ctx) -> CaseOut {
+    if jstr(desc, "mode") == "sort-on-ref" {
+        return run_sort_on_ref(desc);
+    }
     let mut out = run_dir_case(desc, ctx, &VerifyOpts { prop: "C15", handles: true });
     let case = DirCase::from_json(desc);
     // non-trivial: at least one reference column and >= 2 entries
